@@ -1,6 +1,7 @@
 (* C01 - property theorems (statements only; the proofs live in Acme.C01.ProofsXxx). *)
 From Coq Require Import ZArith List Sorted.
-From Acme.C01 Require Import Layout State Model ProofsLayout ProofsInv Refuted ProofsT1.
+From Acme.C01 Require Import Layout State Model ProofsLayout ProofsInv Refuted ProofsT1 ProofsSpec.
+From Acme.C07 Require Import Proofs.
 Open Scope Z_scope.
 
 (* the boolean predicate evaluated on the implementation's snapshots is the declarative one *)
@@ -8,21 +9,34 @@ Theorem wfb_iff_wf : forall size v, wfb size v = true <-> wf size v.
 Proof. exact wfb_wf. Qed.
 Print Assumptions wfb_iff_wf.
 
-(* T1. For every history whose steps satisfy the per-step hypotheses [ok_op] (ProofsInv.v: no
-   re-attachment of a placed signal (D20), SetMinSize not growing attached signals (D03), no two
-   signals of one layout sharing a growing enum (D36), resized multiplexed signals followed by
-   single-group signals only (D35), parent links of resized signals consistent (C05)), every
-   message layout of the reached state is sorted, pairwise disjoint, inside the payload. *)
-Theorem layout_wf_reachable : forall ops, ok_hist ops -> forall m,
+(* T1. For every history whose steps satisfy the per-step hypotheses [ok_op_w] (Acme.C07.Proofs),
+   every message layout of the reached state is sorted, pairwise disjoint and inside the payload.
+   The hypotheses are the narrowest conditions excluding the open findings:
+     - OAppend / OInsert / OMuxInsert: the signal is in no layout (or already in that multiplexer,
+       for further groups)                                                  [D20 re-attachment, C05]
+     - OSetType / OSetEnum x: link_top s x (a top-level signal knows its message and is registered
+       there, an unplaced one has no parent: C05's invariant for x) and single_followers s x
+       (signals behind x in a group holding x are held by that group only)            [D35]
+     - OAddValue / OUpdateIndex changing the enum size: the same for every referencing signal, and
+       no layout holds two referencing signals                                        [D36, D35]
+     - OSetMinSize: the size of attached referencing signals does not grow            [D03]
+   The other 20 operations carry no hypothesis. *)
+Theorem layout_wf_reachable : forall ops, ok_hist_w ops -> forall m,
   wf (8 * gbytes (run ops) m) (msg_view (run ops) m).
 Proof. exact t1_layout_wf. Qed.
 Print Assumptions layout_wf_reachable.
 
-(* the invariant behind T1 (ProofsInv.InvA: well-formedness of every layout, exclusivity of
-   placement, allocation, enum bookkeeping) holds in every such state *)
-Theorem layout_invariant_reachable : forall ops, ok_hist ops -> InvA (run ops).
-Proof. exact inv_reachable. Qed.
+(* the invariants behind T1: InvA (every message layout and every multiplexer group well-formed,
+   exclusivity of placement, allocation, enum bookkeeping) and InvM (multiplexer membership) hold
+   in every such state, and every single operation preserves them *)
+Theorem layout_invariant_reachable : forall ops, ok_hist_w ops -> InvA (run ops) /\ InvM (run ops).
+Proof. exact inv_reachable_w. Qed.
 Print Assumptions layout_invariant_reachable.
+
+Theorem layout_invariant_step : forall s o, InvA s -> InvM s -> ok_op_w s o ->
+  InvA (fst (step s o)) /\ InvM (fst (step s o)).
+Proof. exact step_keeps_invariants. Qed.
+Print Assumptions layout_invariant_step.
 
 (* The statement without hypotheses ([layout_wf_full]) is refuted by the faithful model: each
    witness leaves exactly one hypothesis and is replayed on the Go code (known findings). *)
@@ -41,3 +55,68 @@ Print Assumptions d36_refuted.
 Theorem reattach_refuted : exists ops m, ~ wf (8 * gbytes (run ops) m) (msg_view (run ops) m).
 Proof. exact t1_full_refuted_reattach. Qed.
 Print Assumptions reattach_refuted.
+
+(* T2 (accepted exactly when the arrangement fits), operation by operation, in every state
+   satisfying the invariant (hence in every state reached by an ok_hist history). *)
+Theorem insert_accepted_iff_fits : forall s m x b, InvA s ->
+  (is_ok (snd (step_insert s m x b)) <-> memb x (gnames s m) = false /\ fits_insert s m x b).
+Proof. exact insert_accepted_iff. Qed.
+Print Assumptions insert_accepted_iff_fits.
+
+Theorem append_accepted_iff_fits : forall s m x, InvA s ->
+  (is_ok (snd (step_append s m x)) <->
+   memb x (gnames s m) = false /\ sz s x <= 8 * gbytes s m - last_end (sz s) (rel s) (glay s m)).
+Proof. exact append_accepted_iff. Qed.
+Print Assumptions append_accepted_iff_fits.
+
+Theorem resize_accepted_iff_fits : forall s m n, InvA s ->
+  (is_ok (snd (step_resize s m n)) <->
+   0 <= n /\ (glay s m = nil \/ last_end (sz s) (rel s) (glay s m) <= 8 * n)).
+Proof. exact resize_accepted_iff. Qed.
+Print Assumptions resize_accepted_iff_fits.
+
+(* growing a top-level signal by a is accepted exactly when a <= the gaps behind it plus the
+   trailing space; shrinking to a positive size always *)
+Theorem grow_accepted_iff_fits : forall s m x old n, InvA s ->
+  kind s x = KStd old -> 1 <= n -> In x (glay s m) -> link_ok s x ->
+  (is_ok (snd (step_set_type s x n)) <-> n - old <= free_behind s m x).
+Proof. exact set_type_accepted_iff. Qed.
+Print Assumptions grow_accepted_iff_fits.
+
+(* T3. Shifts return the distance moved, move the named signal to the declarative clamp, move
+   nothing else, and report 0 when nothing can move. *)
+Theorem shift_left_spec : forall s m x a, InvA s ->
+  exists d, snd (step_shift true s m x a) = RShift d
+    /\ d = rel s x - rel (fst (step_shift true s m x a)) x
+    /\ (forall y, y <> x -> rel (fst (step_shift true s m x a)) y = rel s y)
+    /\ (moves s m x a -> rel (fst (step_shift true s m x a)) x = left_target s (glay s m) x a /\ 0 <= d <= a)
+    /\ (~ moves s m x a -> d = 0).
+Proof. exact ProofsSpec.shift_left_spec. Qed.
+Print Assumptions shift_left_spec.
+
+Theorem shift_right_spec : forall s m x a, InvA s ->
+  exists d, snd (step_shift false s m x a) = RShift d
+    /\ d = rel (fst (step_shift false s m x a)) x - rel s x
+    /\ (forall y, y <> x -> rel (fst (step_shift false s m x a)) y = rel s y)
+    /\ (moves s m x a -> rel (fst (step_shift false s m x a)) x = right_target s (glsize s m) (glay s m) x a /\ 0 <= d <= a)
+    /\ (~ moves s m x a -> d = 0).
+Proof. exact ProofsSpec.shift_right_spec. Qed.
+Print Assumptions shift_right_spec.
+
+(* the targets lie in the free space around the signal *)
+Theorem shift_into_free_space : forall s m x a, InvA s -> In x (glay s m) -> 0 < a ->
+  prev_end_from (rel s) (sz s) 0 (glay s m) x <= left_target s (glay s m) x a <= rel s x
+  /\ rel s x <= right_target s (glsize s m) (glay s m) x a
+  /\ right_target s (glsize s m) (glay s m) x a + sz s x <= next_start (rel s) (glsize s m) (glay s m) x.
+Proof. exact shift_targets_free. Qed.
+Print Assumptions shift_into_free_space.
+
+Theorem compact_spec : forall s m, InvA s ->
+  let s' := fst (step_compact s m) in
+  gapfree (rel s') (sz s') 0 (glay s' m)
+  /\ glay s' m = glay s m
+  /\ (forall y, sz s' y = sz s y)
+  /\ (forall y, ~ In y (glay s m) -> rel s' y = rel s y)
+  /\ (forall y, In y (glay s m) -> rel s' y <= rel s y).
+Proof. exact ProofsSpec.compact_spec. Qed.
+Print Assumptions compact_spec.
